@@ -432,6 +432,32 @@ func resolveThroughLocals(v ssa.Value, scope []*ssa.Function) []ssa.Value {
 				out = append(out, d)
 				continue
 			}
+			// a struct that is a copy of another local struct (`*o = *p`: a value receiver, a struct handed on by
+			// value) has that struct's field values (a copy of anything else adds nothing: as before, only what is
+			// stored locally is seen)
+			for i := 0; i < len(objs) && i < 16; i++ {
+				for _, r := range ssau.Referrers(objs[i]) {
+					st, ok := r.(*ssa.Store)
+					if !ok || st.Addr != ssa.Value(objs[i]) {
+						continue
+					}
+					for _, sd := range deepDefs(st.Val, scope) {
+						var from []*ssa.Alloc
+						if sl, isL := sd.(*ssa.UnOp); isL && sl.Op == token.MUL {
+							from = allocsOf(sl.X)
+						}
+						for _, a := range from {
+							dup := false
+							for _, o := range objs {
+								dup = dup || o == a
+							}
+							if !dup {
+								objs = append(objs, a)
+							}
+						}
+					}
+				}
+			}
 			n := 0
 			for _, f := range scope {
 				ssau.Instrs(f, func(in ssa.Instruction) {
